@@ -344,6 +344,12 @@ def branch_funcs(P):
 
 
 def suspend_decision(chk, prefix="C07"):
+    done = getattr(chk, "_listed", None)
+    if done is None:
+        done = chk._listed = set()
+    if "suspend_decision" in done:
+        return None
+    done.add("suspend_decision")
     from pyvc.loops import ForInvariant
     eng = Engine(hooks=ExecHooks())
     P = eng.program
@@ -417,6 +423,12 @@ OTC = "concurrency.executor.ConcurrentExecutor._on_task_complete"
 
 
 def on_task_complete(chk, prefix, want):
+    done = getattr(chk, "_listed", None)
+    if done is None:
+        done = chk._listed = set()
+    if "suspend_decision" not in done and ("C07" in want):
+        # _on_task_complete is verified against the CONTRACT of should_execution_suspend: discharge it in the same check
+        suspend_decision(chk, prefix)
     eng = Engine(hooks=ExecHooks())
     P = eng.program
     st = St()
